@@ -206,6 +206,16 @@ func definitelyObject(c *Ctx, fn *FuncInfo, fg *FlowGraph, at Loc, e ast.Expr, p
 		if nonNilFact(func(y ast.Expr) bool { return sameExpr(info, y, x) }) {
 			return true, "the field is under a dominating non-nil test"
 		}
+		// a field of a parameter struct passed by value (opts.obj of ScanWriterParams): non-nil when every
+		// composite literal of that struct type in the package sets the field to a definite object and no
+		// statement stores anything else into it
+		if id, ok := ast.Unparen(x.X).(*ast.Ident); ok && params[info.ObjectOf(id)] {
+			if fv := selField(info, x); fv != nil {
+				if ok, why := structFieldAlwaysObject(c, fv); ok {
+					return true, why
+				}
+			}
+		}
 		// a store to the same field that dominates the call with a definitely non-nil value
 		stores := fg.Find(func(n ast.Node) bool {
 			as, ok := n.(*ast.AssignStmt)
@@ -706,4 +716,130 @@ func ruleDeadlineRecover(c *Ctx) {
 		c.check(ok, name, fn.Decl.Pos(), "the dispatch is wrapped in a deferred recover that turns the \"deadline\" panic into errTimeout", fmt.Sprintf("%s dispatches commands but does not recover the \"deadline\" panic: a TIMEOUT that fires kills the server process", name))
 	}
 	_ = strings.Join
+}
+
+var structFieldObjCache = map[*types.Var]string{}
+
+// structFieldAlwaysObject: every composite literal of the struct that owns field fv (in internal/server) sets
+// the field to a callback/function parameter or a fresh object.New, and every assignment to the field
+// stores object.New(…).
+func structFieldAlwaysObject(c *Ctx, fv *types.Var) (bool, string) {
+	if w, ok := structFieldObjCache[fv]; ok {
+		return w != "", w
+	}
+	structFieldObjCache[fv] = ""
+	lits, good := 0, true
+	for _, fn := range c.AllFuncs("internal/server") {
+		if fn.Decl.Body == nil {
+			continue
+		}
+		info := fn.Info()
+		paramObjs := map[types.Object]bool{}
+		ast.Inspect(fn.Decl, func(x ast.Node) bool {
+			var ft *ast.FuncType
+			switch y := x.(type) {
+			case *ast.FuncDecl:
+				ft = y.Type
+			case *ast.FuncLit:
+				ft = y.Type
+			}
+			if ft != nil && ft.Params != nil {
+				for _, p := range ft.Params.List {
+					for _, nm := range p.Names {
+						paramObjs[info.ObjectOf(nm)] = true
+					}
+				}
+			}
+			return true
+		})
+		isNew := func(x ast.Expr) bool {
+			call, ok := ast.Unparen(x).(*ast.CallExpr)
+			return ok && isFunc(callee(info, call), objPath, "New")
+		}
+		var fg *FlowGraph
+		ast.Inspect(fn.Decl.Body, func(n ast.Node) bool {
+			switch x := n.(type) {
+			case *ast.CompositeLit:
+				tv, ok := info.Types[x]
+				if !ok {
+					return true
+				}
+				st, ok := tv.Type.Underlying().(*types.Struct)
+				if !ok {
+					return true
+				}
+				owns := false
+				for i := 0; i < st.NumFields(); i++ {
+					if st.Field(i) == fv {
+						owns = true
+					}
+				}
+				if !owns {
+					return true
+				}
+				lits++
+				set := false
+				for _, el := range x.Elts {
+					kv, ok := el.(*ast.KeyValueExpr)
+					if !ok {
+						good = false
+						continue
+					}
+					if kid, ok := kv.Key.(*ast.Ident); ok && kid.Name == fv.Name() {
+						set = true
+						v := ast.Unparen(kv.Value)
+						switch y := v.(type) {
+						case *ast.Ident:
+							if !paramObjs[info.ObjectOf(y)] {
+								if fg == nil {
+									fg = newFlowGraph(info, fn.Decl.Body)
+								}
+								if ok, _ := definitelyObject(c, fn, fg, fg.LocOfOuter(x), y, paramObjs); !ok {
+									good = false
+								}
+							}
+						case *ast.SelectorExpr:
+							// details.obj and the like: decided where it is used
+							if fg == nil {
+								fg = newFlowGraph(info, fn.Decl.Body)
+							}
+							if ok, _ := definitelyObject(c, fn, fg, fg.LocOfOuter(x), y, paramObjs); !ok {
+								good = false
+							}
+						default:
+							if !isNew(v) {
+								good = false
+							}
+						}
+					}
+				}
+				if !set {
+					good = false
+				}
+			case *ast.AssignStmt:
+				if len(x.Lhs) == len(x.Rhs) {
+					for i, l := range x.Lhs {
+						if selField(info, l) == fv {
+							r := ast.Unparen(x.Rhs[i])
+							if id, ok := r.(*ast.Ident); ok {
+								// a local that holds object.New(…) or the field's own previous value
+								r = ast.Unparen(resolveLocalIn(info, fn.Decl.Body, id))
+							}
+							if !isNew(r) {
+								if se, ok := r.(*ast.SelectorExpr); !ok || selField(info, se) != fv {
+									good = false
+								}
+							}
+						}
+					}
+				}
+			}
+			return true
+		})
+	}
+	if lits > 0 && good {
+		structFieldObjCache[fv] = "the field of the parameter struct is set to an object by every literal of its type"
+	}
+	w := structFieldObjCache[fv]
+	return w != "", w
 }
